@@ -17,8 +17,46 @@ import time
 import traceback
 from pathlib import Path
 
-from . import core
+from . import core, shapes
 from .core import Rng, Stats
+
+_CHILD = {}
+
+
+def run_in_dash_o_child(pid, case):
+    """run the implementation side of a case in a `python -O` interpreter (None: the child could not do it)"""
+    import subprocess
+    ch = _CHILD.get("p")
+    if ch is None or ch.poll() is not None:
+        env = dict(os.environ, PYTHONPATH=str(core.VERIF) + os.pathsep + os.environ.get("PYTHONPATH", ""))
+        ch = subprocess.Popen([sys.executable, "-O", "-m", "harness.child"], cwd=str(core.VERIF), env=env, text=True,
+                              stdin=subprocess.PIPE, stdout=subprocess.PIPE, stderr=subprocess.DEVNULL)
+        _CHILD["p"] = ch
+    try:
+        ch.stdin.write(json.dumps({"pid": pid, "case": case}, default=str) + "\n")
+        ch.stdin.flush()
+        ans = json.loads(ch.stdout.readline())
+    except Exception:  # noqa
+        return None
+    if "io" not in ans or ans.get("optimize", 0) < 1:
+        return None
+    back = ans.get("case")
+    if isinstance(back, dict):              # what run_impl leaves in the case for request()/compare()
+        back["hist"] = case.get("hist")
+        case.clear()
+        case.update(back)
+    return ans["io"]
+
+
+def run_one(prop, c, stats=None):
+    """the implementation side of one case, in the layout / history / interpreter the case names"""
+    if isinstance(c, dict) and c.get("hist") == "dashO":
+        io = run_in_dash_o_child(prop.ID, c)
+        if io is not None:
+            return io
+        if stats is not None:
+            stats.hit("hist=dashO:fell-back-in-process")
+    return shapes.run_with_history(prop.run_impl, c)
 
 
 def load_prop(pid):
@@ -45,7 +83,7 @@ def evaluate(prop, cases, stats):
     impl_outs = []
     for c in cases:
         try:
-            impl_outs.append(prop.run_impl(c))
+            impl_outs.append(run_one(prop, c, stats))
         except Exception as e:   # the implementation behaved in a way the runner cannot even record
             impl_outs.append({"runner_exception": f"{type(e).__name__}: {e}"})
     reqs = []
@@ -88,6 +126,10 @@ def evaluate(prop, cases, stats):
         if o:
             oracle_fail.append({**rec, "violation": o})
         try:
+            if isinstance(c, dict) and "layout" in c:
+                stats.hit("hist=" + str(c.get("hist")))
+                for lay in set(c["layout"].split(",")):
+                    stats.hit("layout:" + lay)
             for t in prop.tags(c, io, mo):
                 stats.hit(t)
         except Exception:  # noqa
@@ -221,7 +263,13 @@ def run(pid, tier, seed, args, t0):
     n_dis = 0
     keys = set()
     driver_ok = core.DRIVER_EXE.exists()
-    stream = itertools.chain(corpus_cases, prop.cases(rng, tier))
+    shape_rng = Rng(f"{pid}-{seed}-{tier}-shapes")
+    use_shapes = getattr(prop, "SHAPES", True)
+
+    def decorated(gen, r):
+        for c in gen:
+            yield shapes.decorate(c, r) if use_shapes else c
+    stream = itertools.chain(corpus_cases, decorated(prop.cases(rng, tier), shape_rng))
     while True:
         chunk = list(itertools.islice(stream, 5000))
         if not chunk:
@@ -238,7 +286,7 @@ def run(pid, tier, seed, args, t0):
             recs, d, f = [], [], []
             for c in chunk:
                 try:
-                    io = prop.run_impl(c)
+                    io = run_one(prop, c)
                     o = prop.oracle(c, io)
                 except Exception:  # noqa
                     continue
@@ -280,7 +328,7 @@ def run(pid, tier, seed, args, t0):
             # re-run the recorded witness on the real code
             w = k.get("witness")
             if w is not None:
-                io = prop.run_impl(w)
+                io = run_one(prop, w)
                 o = prop.oracle(w, io)
                 if o:
                     print(f"KNOWN-FINDING: property={pid} {k['what']}")
@@ -298,10 +346,10 @@ def run(pid, tier, seed, args, t0):
         srng = Rng(f"{pid}-{seed}-search")
         tried = 0
         for rep in range(20):
-            for c in prop.cases(srng, "search"):
+            for c in decorated(prop.cases(srng, "search"), srng):
                 tried += 1
                 try:
-                    io = prop.run_impl(c)
+                    io = run_one(prop, c)
                     o = prop.oracle(c, io)
                 except Exception:  # noqa
                     continue
